@@ -411,3 +411,40 @@ func (c *Ctx) callbackFunc(f *FuncInfo, e ast.Expr) (*FuncInfo, map[types.Object
 	}
 	return nil, nil
 }
+
+// armDelegate recognises a switch arm (or any statement list) that consists only of `return helper(args...)` with
+// helper a function of the repository, and returns the helper together with the binding caller-variable -> helper
+// parameter for every argument that is a plain identifier. Rules that judge "what the arm does" follow it one level.
+func (c *Ctx) armDelegate(f *FuncInfo, body []ast.Stmt) (*FuncInfo, map[*types.Var]*types.Var) {
+	if len(body) != 1 {
+		return nil, nil
+	}
+	ret, ok := body[0].(*ast.ReturnStmt)
+	if !ok || len(ret.Results) != 1 {
+		return nil, nil
+	}
+	call, ok := ast.Unparen(ret.Results[0]).(*ast.CallExpr)
+	if !ok {
+		return nil, nil
+	}
+	info := f.Pkg.TypesInfo
+	fn, ok := calleeObj(info, call).(*types.Func)
+	if !ok || !inRepo(fn) {
+		return nil, nil
+	}
+	g := c.byObj[fn]
+	if g == nil || g.Body() == nil {
+		return nil, nil
+	}
+	sig := fn.Type().(*types.Signature)
+	bind := map[*types.Var]*types.Var{}
+	for i, a := range call.Args {
+		if i >= sig.Params().Len() {
+			break
+		}
+		if v, ok := objOfIdent(info, a).(*types.Var); ok {
+			bind[v] = sig.Params().At(i)
+		}
+	}
+	return g, bind
+}
